@@ -15,6 +15,9 @@ inductive Cred where
   | otherCA
   | expired
   | wrongUsage      -- chains to the CA but lacks the ExtKeyUsage for its role
+  | borrowedChain   -- first certificate: self-signed, CA flag set, the peer's own key; followed by the PUBLIC certificate of
+                    -- a legitimate peer (which the peer holds no key for). TLS proves possession of the FIRST certificate's key only
+  | validPlusCA     -- a valid leaf followed by the configured CA's own certificate (an ordinary full chain)
   | none
 deriving DecidableEq, Repr
 
@@ -85,6 +88,7 @@ def clientTLS (c : Config) : Built ClientConf :=
 def chainsToCA : Cred → Bool
   | .validChain => true
   | .wrongName => true
+  | .validPlusCA => true
   | _ => false
 
 def nameMatches : Cred → Bool
